@@ -48,6 +48,9 @@ def worker(k):
         sh("git -C /repo worktree remove --force %s" % w)
 ts = [threading.Thread(target=worker, args=(k,)) for k in range(slots)]
 [t.start() for t in ts]; [t.join() for t in ts]
-json.dump(results, open(os.path.join(V, "seeded", "reverify.json"), "w"), indent=1, sort_keys=True)
+rvp = os.path.join(V, "seeded", "reverify.json")
+allres = json.load(open(rvp)) if os.path.exists(rvp) else {}
+allres.update(results)   # a partial run (--only) refreshes its entries and keeps the others
+json.dump(allres, open(rvp, "w"), indent=1, sort_keys=True)
 missed = [d for d, r in sorted(results.items()) if not r["caught"]]
 print("re-verified %d changes at %s: %d caught, not caught: %s" % (len(results), head[:10], len(results) - len(missed), missed))
